@@ -37,10 +37,31 @@ import (
 	"gopkg.in/check.v1"
 
 	"github.com/snapcore/snapd/client"
+	"github.com/snapcore/snapd/dirs"
 	"github.com/snapcore/snapd/overlord/snapstate"
 	"github.com/snapcore/snapd/overlord/state"
+	"github.com/snapcore/snapd/progress"
 	"github.com/snapcore/snapd/snap"
 )
+
+// verifMultiBackend serialises the two operations of the SnapSeq harness's backend wrapper that keep a map of the
+// data directories they created: here handlers of different snaps run concurrently.
+type verifMultiBackend struct {
+	*verifSeqBackend
+	dataMu sync.Mutex
+}
+
+func (b *verifMultiBackend) CopySnapData(newInfo, oldInfo *snap.Info, opts *dirs.SnapDirOptions, p progress.Meter) error {
+	b.dataMu.Lock()
+	defer b.dataMu.Unlock()
+	return b.verifSeqBackend.CopySnapData(newInfo, oldInfo, opts, p)
+}
+
+func (b *verifMultiBackend) UndoCopySnapData(newInfo, oldInfo *snap.Info, opts *dirs.SnapDirOptions, p progress.Meter) error {
+	b.dataMu.Lock()
+	defer b.dataMu.Unlock()
+	return b.verifSeqBackend.UndoCopySnapData(newInfo, oldInfo, opts, p)
+}
 
 // watchdog only (the machine is shared and at times very loaded)
 const verifMultiSettleTimeout = 90 * time.Second
@@ -510,6 +531,7 @@ func (s *verifMultiSuite) runMulti(c *check.C, op *verifMultiOp) {
 func (s *verifMultiSuite) multiReset(c *check.C, onClassic bool) {
 	s.reset(c, onClassic)
 	s.mChg = nil
+	snapstate.SetSnapManagerBackend(s.snapmgr, &verifMultiBackend{verifSeqBackend: s.vb})
 	s.fakeBackend.maybeInjectErr = func(op *fakeOp) error {
 		if s.mChg != nil {
 			return s.multiInject(op)
